@@ -1561,13 +1561,13 @@ def diag_matrix(
                 # Diagonal: use the vector's variable
                 row.append(vector._variables[i])
             else:
-                # Off-diagonal: create a fixed-zero variable
+                # Off-diagonal: create a fixed-zero variable.  It is a constant,
+                # not a decision: a binary domain would reset its bounds to [0, 1]
                 row.append(
                     Variable(
                         f"_diag_{vector.name}[{i},{j}]",
                         lb=0.0,
                         ub=0.0,
-                        domain=vector.domain,
                     )
                 )
         variables.append(row)
